@@ -936,9 +936,45 @@ func keys(m map[string]bool) []string {
 	return o
 }
 
+// recordL1 records 0-3 L1 heads in a row (absent / behind / equal / ahead of the chain head, each drawn independently of the
+// one before, so the recorded head also moves BACK); *cur is the head recorded last.
+func recordL1(rt *rapid.T, c *stats.Case, nd *node.Node, cur **core.L1Head, head int) {
+	n := rapid.SampledFrom([]int{1, 1, 2, 3}).Draw(rt, "l1records")
+	for i := 0; i < n; i++ {
+		var l1 *core.L1Head
+		switch rapid.IntRange(0, 3).Draw(rt, "l1pos") {
+		case 1:
+			l1 = &core.L1Head{BlockNumber: uint64(rapid.IntRange(0, head).Draw(rt, "l1behind"))}
+			c.Label("l1-behind-or-equal")
+		case 2:
+			l1 = &core.L1Head{BlockNumber: uint64(head + rapid.IntRange(1, 3).Draw(rt, "l1ahead"))}
+			c.Label("l1-ahead")
+		case 3:
+			l1 = &core.L1Head{BlockNumber: uint64(head)}
+			c.Label("l1-equal")
+		default:
+			if *cur == nil {
+				c.Label("l1-absent")
+			}
+			continue
+		}
+		l1.BlockHash, l1.StateRoot = gen.FP(l1.BlockNumber+77), gen.FP(l1.BlockNumber+99)
+		if err := nd.BC.SetL1Head(l1); err != nil {
+			stats.HarnessError("SetL1Head: %v", err)
+		}
+		if *cur != nil && l1.BlockNumber < (*cur).BlockNumber {
+			c.Label("l1-head-moved-back")
+		}
+		if *cur != nil && l1.BlockNumber == (*cur).BlockNumber {
+			c.Label("l1-head-recorded-again")
+		}
+		*cur = l1
+	}
+}
+
 func TestPropRPCReadsFollowTheChain(t *testing.T) {
 	stats.Check(t, stats.Budget{Quick: 400, Thorough: 1500},
-		"chain tree (prefix 1-3 + fork F1 1-2 blocks reverted + fork F2 1-3 blocks) on a drawn state backend and a drawn store (in-memory, or in 2 of 5 cases Pebble v2 on a scratch directory) with an L1 head absent/behind/equal/ahead, in a quarter of the cases served after a restart (new Blockchain and handlers; on Pebble half of those close and reopen the database); the real method tables of API v0.8/v0.9/v0.10 are mounted on jsonrpc servers and queried with JSON text: every read method x block id kinds (number, hash, latest, l1_accepted, one-past-head, reverted hash, random hash), tx hashes (existing, reverted, random), indices in/out of range, (contract, slot), classes; identity-bearing fields compared with the generated chain and the abstract state, error codes 24/29/20/28/27 exactly when the chain lacks the item, finality from the L1 head, route consistency (by index vs by hash), versions agree on shared keys; on every Pebble case and a quarter of the memory cases additionally EVERY block (drawn id form: number, hash, latest, l1_accepted) x EVERY contract (nonce, class hash) x EVERY slot (storage, partly with the last-update block) through a drawn API version, so adjacent contracts/slots whose history records start at different blocks are all read at all blocks; non-trivial = query through l1_accepted, a reverted hash or a historical block (or a per-contract read at a block where the next contract/slot got its first history record while the queried one has none from there on)",
+		"chain tree (prefix 1-3 + fork F1 1-2 blocks reverted + fork F2 1-3 blocks) on a drawn state backend and a drawn store (in-memory, or in 2 of 5 cases Pebble v2 on a scratch directory) with an L1 head HISTORY (0-3 heads recorded while the first fork is canonical and 0-3 after the reorg, each absent/behind/equal/ahead of the chain head independently of the one before, so the recorded head also moves back or is recorded again; the last one recorded is the head), in a quarter of the cases served after a restart (new Blockchain and handlers; on Pebble half of those close and reopen the database); the real method tables of API v0.8/v0.9/v0.10 are mounted on jsonrpc servers and queried with JSON text: every read method x block id kinds (number, hash, latest, l1_accepted, one-past-head, reverted hash, random hash), tx hashes (existing, reverted, random), indices in/out of range, (contract, slot), classes; identity-bearing fields compared with the generated chain and the abstract state, error codes 24/29/20/28/27 exactly when the chain lacks the item, finality from the L1 head, route consistency (by index vs by hash), versions agree on shared keys; on every Pebble case and a quarter of the memory cases additionally EVERY block (drawn id form: number, hash, latest, l1_accepted) x EVERY contract (nonce, class hash) x EVERY slot (storage, partly with the last-update block) through a drawn API version, so adjacent contracts/slots whose history records start at different blocks are all read at all blocks; non-trivial = query through l1_accepted, a reverted hash or a historical block (or a per-contract read at a block where the next contract/slot got its first history record while the queried one has none from there on)",
 		func(rt *rapid.T, c *stats.Case) {
 			u := gen.NewUniverse(rt)
 			newState := rapid.Bool().Draw(rt, "newState")
@@ -984,8 +1020,14 @@ func TestPropRPCReadsFollowTheChain(t *testing.T) {
 			// the same handlers (and the same Blockchain with whatever it caches) serve queries BEFORE the reorg too: half of the
 			// cases run the whole sweep against the first fork while it is canonical, then revert it
 			eps := newEndpoints(nd)
+			// the L1 head is a HISTORY too: it may be recorded while the first fork is canonical (it then survives the reorg and
+			// the restart), and recorded again later - with any number, also a lower one: the last recorded head is the head
+			var recorded *core.L1Head
+			if rapid.Bool().Draw(rt, "l1BeforeReorg") {
+				recordL1(rt, c, nd, &recorded, len(f1.Blocks)-1)
+			}
 			if n1 > 0 && rapid.Bool().Draw(rt, "sweepBeforeReorg") {
-				w1 := &world{c: c, u: u, n: nd, chain: f1.Blocks, eps: eps, dense: dense}
+				w1 := &world{c: c, u: u, n: nd, chain: f1.Blocks, eps: eps, dense: dense, l1: recorded}
 				w1.sweep(rt)
 				c.Label("queried-before-the-reorg")
 			}
@@ -1021,25 +1063,8 @@ func TestPropRPCReadsFollowTheChain(t *testing.T) {
 			}
 			w := &world{c: c, u: u, n: nd, chain: f2.Blocks, reverted: f1.Blocks[np:], dense: dense}
 			head := len(f2.Blocks) - 1
-			switch rapid.IntRange(0, 3).Draw(rt, "l1pos") {
-			case 1:
-				w.l1 = &core.L1Head{BlockNumber: uint64(rapid.IntRange(0, head).Draw(rt, "l1behind"))}
-				c.Label("l1-behind-or-equal")
-			case 2:
-				w.l1 = &core.L1Head{BlockNumber: uint64(head + rapid.IntRange(1, 3).Draw(rt, "l1ahead"))}
-				c.Label("l1-ahead")
-			case 3:
-				w.l1 = &core.L1Head{BlockNumber: uint64(head)}
-				c.Label("l1-equal")
-			default:
-				c.Label("l1-absent")
-			}
-			if w.l1 != nil {
-				w.l1.BlockHash, w.l1.StateRoot = gen.FP(w.l1.BlockNumber+77), gen.FP(w.l1.BlockNumber+99)
-				if err := nd.BC.SetL1Head(w.l1); err != nil {
-					stats.HarnessError("SetL1Head: %v", err)
-				}
-			}
+			w.l1 = recorded
+			recordL1(rt, c, nd, &w.l1, head)
 			c.Fp("%v %s p%d f1:%d f2:%d l1:%v head:%s", newState, store, np, n1, n2, w.l1, f2.Blocks[head].B.Hash.String())
 			w.eps = eps
 			w.sweep(rt)
